@@ -20,7 +20,7 @@ View == << pending, shadow, ctr, steps, runs, res >>
 
 D == INSTANCE Decoder WITH TecmpDecode <- LAMBDA b : << >>
 
-AllEndpoints == << << 1, 1 >>, << 1, 2 >>, << 2, 1 >> >>
+AllEndpoints == << << 3, 2 >>, << 3, 3 >>, << 259, 2 >> >>     \* same device / other stream; 3: coincides with 2 under dev | st << 8, with 1 under dev % 256
 E == 1..NEndpoints
 Ep(i) == AllEndpoints[i]
 
@@ -91,7 +91,11 @@ FeedCmp(i, kind, crel, vrel, mrel) ==
             100000 * i + 1000 * KindIdx(kind) + 100 * RelIdx(crel) + 10 * (IF vrel = "same" THEN 0 ELSE 1) + (IF mrel = "same" THEN 0 ELSE 1))
 
 (* buffers that are no capture-module frame: the decoder and every shadow must stay as they are *)
-Alien(n) == IF n = 1 THEN << 1, 0, 0, 1, 1, 1, 0 >>                                           \* 7 bytes
+(* a leading 0x00 routes a buffer away from the capture-module path whatever its length: here 20 bytes that   *)
+(* otherwise look like a frame of endpoint i (device id, stream id, plausible counter)                         *)
+AlienLike(i) == << 0, 0 >> \o BE16(Ep(i)[1]) \o << 1, Ep(i)[2] >> \o BE16((ctr[i] + 1) % 65536) \o Msg(Proto(i), SegNone, Pl(i, 1, 1))
+Alien(n) == IF n >= 10 THEN SubSeq(AlienLike(n - 9), 1, 20) ELSE
+            IF n = 1 THEN << 1, 0, 0, 1, 1, 1, 0 >>                                           \* 7 bytes
             ELSE IF n = 2 THEN << 0, 1, 0, 1, 3, 3, 0, 2 >> \o [j \in 1..24 |-> 0]            \* TECMP-routed, no payload
             ELSE << >>                                                                         \* empty buffer
 FeedAlien(n) ==
@@ -107,7 +111,7 @@ Next ==
     /\ \/ \E i \in E, kind \in Kinds, crel \in CtrRels : FeedCmp(i, kind, crel, "same", "same")
        \/ \E i \in E, kind \in Kinds \cap {"F", "I", "L"}, vrel \in VerRels, mrel \in MtRels :
               (vrel # "same" \/ mrel # "same") /\ FeedCmp(i, kind, "next", vrel, mrel)
-       \/ \E n \in 1..3 : FeedAlien(n)
+       \/ \E n \in (1..3) \cup {9 + i : i \in E} : FeedAlien(n)
 
 Spec == Init /\ [][Next]_vars
 
